@@ -60,6 +60,10 @@ func runContract(r *common.Run, sk *sink, caseNo int, rng *rand.Rand, seed int64
 		slowSave = time.Duration(5+rng.Intn(40)) * time.Millisecond
 	}
 	closeDelay := time.Duration(rng.Intn(15)) * time.Millisecond
+	slowRecover := time.Duration(0)
+	if rng.Intn(2) == 0 {
+		slowRecover = time.Duration(10+rng.Intn(60)) * time.Millisecond
+	}
 	snapEntries := uint64(10 + rng.Intn(30))
 	store := cluster.Pebble
 	if rng.Intn(3) == 0 {
@@ -69,7 +73,7 @@ func runContract(r *common.Run, sk *sink, caseNo int, rng *rand.Rand, seed int64
 	kinds := map[uint64]cluster.SMKind{1: cluster.Regular, 2: cluster.Concurrent, 3: cluster.OnDisk}
 	c := cluster.NewCluster(cluster.Options{Hosts: 3, Seed: seed, RTTMs: 10, Store: store,
 		SMOpt: func(shardID, _ uint64) cluster.SMOptions {
-			return cluster.SMOptions{Kind: kinds[shardID], RecordApply: true, RaceCanary: true, SlowLookup: slowLookup, SlowSave: slowSave}
+			return cluster.SMOptions{Kind: kinds[shardID], RecordApply: true, RaceCanary: true, SlowLookup: slowLookup, SlowSave: slowSave, SlowRecover: slowRecover}
 		}}, sk)
 	// widen the window of NativeSM.Close
 	if closeDelay > 0 {
@@ -180,7 +184,7 @@ func runContract(r *common.Run, sk *sink, caseNo int, rng *rand.Rand, seed int64
 		h := c.Hosts[rng.Intn(3)]
 		shard := uint64(1 + rng.Intn(3))
 		nh := nhOf(h)
-		switch rng.Intn(7) {
+		switch rng.Intn(8) {
 		case 0, 1: // requested snapshot
 			if nh != nil {
 				if rs, err := nh.RequestSnapshot(shard, dragonboat.SnapshotOption{OverrideCompactionOverhead: rng.Intn(2) == 0, CompactionOverhead: uint64(1 + rng.Intn(10))}, time.Second); err == nil {
@@ -196,6 +200,36 @@ func runContract(r *common.Run, sk *sink, caseNo int, rng *rand.Rand, seed int64
 					time.Sleep(time.Duration(rng.Intn(30)) * time.Millisecond)
 					cfg := cluster.ShardConfig(shard, uint64(h.Index+1))
 					cfg.SnapshotEntries, cfg.CompactionOverhead = snapEntries, 5
+					if err := restartReplica(h, members, kinds[shard], cfg); err != nil {
+						sk.Count("replica_restart_errors", 1)
+					}
+				}
+			}
+		case 6: // a restart that waits for readiness (Config.WaitReady) races with a stop of the same replica
+			if nh != nil {
+				noteStop()
+				if err := nh.StopReplica(shard, uint64(h.Index+1)); err == nil {
+					sk.Count("stop_replica", 1)
+					cfg := cluster.ShardConfig(shard, uint64(h.Index+1))
+					cfg.SnapshotEntries, cfg.CompactionOverhead = snapEntries, 5
+					cfg.WaitReady = true
+					started := make(chan error, 1)
+					go func() { started <- restartReplica(h, members, kinds[shard], cfg) }()
+					time.Sleep(time.Duration(1+rng.Intn(25)) * time.Millisecond)
+					for try := 0; try < 20; try++ {
+						if err := nh.StopShard(shard); err == nil {
+							sk.Count("stop_during_waitready_start", 1)
+							break
+						}
+						time.Sleep(2 * time.Millisecond)
+					}
+					select {
+					case <-started:
+					case <-time.After(20 * time.Second):
+						sk.Count("waitready_start_still_blocked_after_20s", 1)
+					}
+					_ = nh.StopShard(shard)
+					cfg.WaitReady = false
 					if err := restartReplica(h, members, kinds[shard], cfg); err != nil {
 						sk.Count("replica_restart_errors", 1)
 					}
